@@ -87,3 +87,36 @@ func init() {
 		},
 	})
 }
+
+func init() {
+	register(&Property{
+		ID: "C04",
+		Explanation: "The compile-time precedence decision is a finite table; it is extracted from the code by abstract evaluation and compared with the documented one. DTX(resolvePrec): for every combination of (rule has precedence, lookahead has precedence, order of the two groups, associativity) the result equals: missing -> conflict; higher wins; equal -> left reduces, right shifts, nonassoc is an error. " +
+			"GUARD(lastterminal): the fallback takes the last RHS symbol with 0 < sym < Terminals (markers and nonterminals excluded). DTX(ruleAction): shift x {reduce, error, shift, conflict} -> {rule, -3, -1, -1}; an existing conflict or nonassoc error keeps its action; an unresolved reduce/reduce keeps the earlier rule and reports both. " +
+			"MUSTPASS(nonassoc-rewrite): -3 becomes the error code -2 before a row is emitted. LOCKSTEP(precGroup): later declaration = larger group. DTX(assocmap): %left/%right/%nonassoc map to Left/Right/NonAssoc. CODEC(optimize): nonassoc errors survive defaultReduce. " +
+			"Not decided: that the chosen action is what the running parser does (C01), hasConflict bookkeeping across several rules on one terminal.",
+		Rules: []string{"DTX(resolvePrec)", "GUARD(lastterminal)", "DTX(ruleAction)", "MUSTPASS(nonassoc-rewrite)", "LOCKSTEP(precGroup)", "DTX(assocmap)", "CODEC(optimize)"},
+		Run: func(c *Ctx) {
+			ruleRESOLVEPREC(c)
+			ruleRULEACTION(c)
+			rulePRECPLUMBING(c)
+			ruleOPTCODEC(c)
+		},
+	})
+	register(&Property{
+		ID: "C03",
+		Explanation: "Decides the structural clauses of 'conflict reports are exact': GUARD(conflict-accounting): the shift/reduce counter grows by len(conflict.Next) exactly under !Resolved and CanShift, the reduce/reduce counter under !Resolved and !CanShift. DTX(reportConflicts): for all 16 combinations of (sr = %expect, rr = %expect-rr, includeResolved, verbose) the summary error at the grammar origin is raised iff a count differs; the counts are exported. " +
+			"GUARD(unionclone) + ALIAS/ESCAPE over lalr: lookahead sets kept in states never share storage with the scratch buffer that the next union overwrites. DTX(ruleAction): which resolution is recorded per conflict. " +
+			"Not decided: LR(0) closure, lookback/follow propagation, the LALR(1) sets themselves — algorithmic, out of reach for this technique.",
+		Rules: []string{"GUARD(conflict-accounting)", "DTX(reportConflicts)", "GUARD(unionclone)", "ALIAS", "ESCAPE", "DTX(ruleAction)"},
+		Run: func(c *Ctx) {
+			ruleCONFLICTCOUNT(c)
+			ruleREPORTCONFLICTS(c)
+			ruleUNIONCLONE(c)
+			pk := map[string]bool{"lalr": true, "util/sparse": true}
+			ruleALIAS(c, pk)
+			ruleESCAPE(c, pk)
+			ruleRULEACTION(c)
+		},
+	})
+}
